@@ -125,14 +125,19 @@ def generate(seed, tier):
     for _ in range(rng.choice([0, 2, 4])):
         n = rng.choice([100, 90, 50, 1000, 10000, rng.randint(0, 10000)])
         calls.append([gen_spec(rng, n), n])
+        if rng.random() < 0.4:
+            # the same specification again, for a treebank of another size
+            calls.append([calls[-1][0], rng.choice([n + 3, max(0, n - 2), 7, 2 * n])])
+    dest_name = rng.choice(["d", "d", "d", "tb_50%_rest", "out%d", "a%%b", "x.y-z", "ü"])
     return {"tb": tb, "src_fmt": src_fmt, "dest_fmt": dest_fmt, "dopts": dopts, "spec": spec,
             "filter": flt, "calls": calls, "layout": rng.randrange(1 << 30),
-            "src_enc": src_enc, "dest_enc": dest_enc,
+            "src_enc": src_enc, "dest_enc": dest_enc, "dest_name": dest_name,
             "io_seed": rng.randrange(1 << 30)}
 
 
 def argv(sc, split):
-    a = ["transform", "/sim/w/src", "/sim/w/out/d", "--src-format", sc["src_fmt"],
+    a = ["transform", "/sim/w/src", "/sim/w/out/" + sc.get("dest_name", "d"), "--src-format",
+         sc["src_fmt"],
          "--dest-format", sc["dest_fmt"], "--src-opts", "quiet",
          "--src-enc", sc.get("src_enc", "utf-8"), "--dest-enc", sc.get("dest_enc", "utf-8")]
     if sc["dopts"]:
@@ -235,7 +240,8 @@ def execute(sc, sim):
             st.probe("tie_for_largest_part")
     # ---- history: the file set
     outs = sorted(p for p in obs["files"] if p.startswith("/sim/w/out/"))
-    expect_files = ["/sim/w/out/d.%d" % i for i in range(len(want))]
+    dn = "/sim/w/out/" + sc.get("dest_name", "d")
+    expect_files = [dn + ".%d" % i for i in range(len(want))]
     if outs != sorted(expect_files):
         return done(sc, st, [cm.viol("C17/file-set", expected=expect_files, got=outs,
                                      spec=sc["spec"])])
@@ -263,11 +269,11 @@ def execute(sc, sim):
     obs2 = sim.run(dict(base, sessions=[{"id": "c", "ops": [["cli", argv(sc, False)]]}]))
     st.add_obs(obs2)
     rec2 = obs2["sessions"]["c"][0]
-    if "exc" in rec2 or rec2["ok"].get("exit") != 0 or "/sim/w/out/d" not in obs2["files"]:
+    if "exc" in rec2 or rec2["ok"].get("exit") != 0 or dn not in obs2["files"]:
         st.probe("unsplit_reference_run_failed")
         return done(sc, st, viols)
     try:
-        whole = c03.decode_dest(obs2["files"]["/sim/w/out/d"], fmt, denc, sc["dopts"])
+        whole = c03.decode_dest(obs2["files"][dn], fmt, denc, sc["dopts"])
     except rc.DecodeError:
         st.probe("unsplit_reference_run_failed")
         return done(sc, st, viols)
@@ -380,6 +386,10 @@ def shrink_candidates(sc):
     for k in sorted(sc["dopts"]):
         c = model.clone(sc)
         del c["dopts"][k]
+        yield c
+    if sc.get("dest_name", "d") != "d":
+        c = model.clone(sc)
+        c["dest_name"] = "d"
         yield c
     for key in ("src_enc", "dest_enc"):
         if sc.get(key, "utf-8") != "utf-8":
